@@ -86,6 +86,12 @@ def main():
         only = args[args.index('--checks') + 1].split(',')
         del args[args.index('--checks'):args.index('--checks') + 2]
     paths = args or sorted(glob.glob(os.path.join(HERE, 'benign', '*', 'patch.diff')))
+    if not args:
+        # a refactoring whose base was rewritten by a later repair is kept for the record only
+        def _live(p_):
+            m_ = os.path.join(os.path.dirname(p_), 'meta.json')
+            return not (os.path.exists(m_) and json.load(open(m_)).get('superseded'))
+        paths = [p_ for p_ in paths if _live(p_)]
     results = []
     for p in paths:
         r = run_one(p, runs, only)
